@@ -270,16 +270,6 @@ Fixpoint run_ops (root c : path) (s : option node) (ops : list cop) : option nod
     (s2, a :: l)
   end.
 
-(** all clients one after another (by ConcServeProofs: what ANY interleaving gives) *)
-Fixpoint run_all (root : path) (s : option node) (cs : list sclient) : option node * list (list answer) :=
-  match cs with
-  | [] => (s, [])
-  | c :: rest =>
-    let '(s1, a) := run_ops root (sc_coll c) s (sc_ops c) in
-    let '(s2, l) := run_all root s1 rest in
-    (s2, a :: l)
-  end.
-
 Definition workload_ok (root : path) (s : option node) (cs : list sclient) : bool :=
   pairwise_incomparable (map sc_coll cs) &&
   forallb (fun c => view_ok (geto s (root ++ sc_coll c)) &&
@@ -312,21 +302,21 @@ Fixpoint answers_eqb (a b : list answer) : bool :=
 Record sobs := { so_conc : list answer; so_conc_tree : option node;
                  so_alone : list answer; so_alone_tree : option node }.
 
-Fixpoint serve_clients_agree (root : path) (s_end : option node) (s0 : option node)
-         (cs : list sclient) (exp : list (list answer)) (obs : list sobs) : bool :=
-  match cs, exp, obs with
-  | [], [], [] => true
-  | c :: cs', e :: exp', o :: obs' =>
-    answers_eqb (so_conc o) e &&
-    onode_eqb (so_conc_tree o) (geto s_end (root ++ sc_coll c)) &&
+Fixpoint serve_clients_agree (root : path) (s0 : option node) (cs : list sclient) (obs : list sobs) : bool :=
+  match cs, obs with
+  | [], [] => true
+  | c :: cs', o :: obs' =>
     (let '(s1, a) := run_ops root (sc_coll c) s0 (sc_ops c) in
-     answers_eqb (so_alone o) a && onode_eqb (so_alone_tree o) (geto s1 (root ++ sc_coll c))) &&
-    serve_clients_agree root s_end s0 cs' exp' obs'
-  | _, _, _ => false
+     let t := geto s1 (root ++ sc_coll c) in
+     answers_eqb (so_conc o) a && onode_eqb (so_conc_tree o) t &&
+     answers_eqb (so_alone o) a && onode_eqb (so_alone_tree o) t) &&
+    serve_clients_agree root s0 cs' obs'
+  | _, _ => false
   end.
 
-(** [serve_agrees]: concurrently and alone the implementation answered, and left in
-    every client's collection, what [DavServer.serve] computes *)
+(** [serve_agrees]: concurrently — in whatever interleaving the scheduler produced —
+    and alone, every client got the answers, and its collection ended as the subtree,
+    that [DavServer.serve] gives its requests ALONE from the initial sandbox
+    (ConcServeProofs.workload_any_interleaving: that is what every interleaving gives). *)
 Definition serve_agrees (root : path) (s0 : option node) (cs : list sclient) (obs : list sobs) : bool :=
-  let '(s_end, exp) := run_all root s0 cs in
-  serve_clients_agree root s_end s0 cs exp obs.
+  workload_ok root s0 cs && serve_clients_agree root s0 cs obs.
